@@ -5,8 +5,25 @@
 //! Generated: every single instruction (exhaustive), pairs (sampled / exhaustive in
 //! the thorough tier), random depth-aware programs interleaved with value-changing
 //! steps, both directions, operand sets of 0..n tuples, repeated application.
+//!
+//! Steps reporting FEWER successes than operands (sections failing-step-sandwich and
+//! random-programs-failing-steps): the machine executes every instruction whatever the
+//! counts of the earlier steps were, and the pipeline reports the minimum count over the
+//! executed steps.  Interleaved are (a) `vstep`, an operator registered by the harness that
+//! changes the data in a known way (nothing / shift / shift the first k and NaN the rest /
+//! scale) and returns an arbitrary count (0, 1, 2, n-1, n-2, n), modelled exactly, and
+//! (b) library operators (cart, utm, tmerc, laea, lcc, merc, helmert, geodesic, and the
+//! one-way operators curvature and gravity, which report 0 and leave the data alone in the
+//! inverse direction) fed with operand sets that are partly or wholly outside their
+//! domain; these are opaque functions to the machine: the reference applies the same
+//! operator *standalone* (not in a pipeline) to a container of the same kind holding the
+//! machine's current operand state and takes values (bit for bit) and count from there.
+//! Soundness limit kept: after an underflow that is not the last executed step only the
+//! count (0) is compared (on the unchanged tree the later steps do run: `stack` underflows
+//! leave the stack alone, a legacy pop has already popped part of it; the documentation
+//! says nothing about either, so values are not asserted).
 
-use geodesy::prelude::*;
+use geodesy::authoring::*;
 use proptest::prelude::*;
 use serde::{Deserialize, Serialize};
 use vcore::geo::*;
@@ -25,6 +42,82 @@ enum Ins {
     AddOne(bool),    // addone / addone inv
     Perm([i8; 4]),   // axisswap order=...
     Noop,
+    /// `vstep`, registered by the harness: known change of the data, arbitrary reported count
+    User { mode: u8, dim: u8, ret: i8, inv: bool },
+    /// library operator LIB_STEPS[idx], opaque to the machine (evaluated standalone)
+    Lib { idx: u8, inv: bool },
+}
+
+/// (definition, invertible). Operand sets partly / wholly outside the domain make these report
+/// fewer successes than operands; the one-way ones report 0 in the inverse direction.
+const LIB_STEPS: [(&str, bool); 13] = [
+    ("cart", true),
+    ("cart ellps=intl", true),
+    ("utm zone=32", true),
+    ("tmerc lat_0=10 lon_0=9 k_0=0.9996 x_0=500000", true),
+    ("laea lat_0=52 lon_0=10 x_0=4321000 y_0=3210000", true),
+    ("lcc lat_1=33 lat_2=45 lon_0=10", true),
+    ("merc lat_ts=56", true),
+    ("helmert x=-87 y=-96 z=-120", true),
+    ("helmert x=1 dx=0.01 dy=0.02 dz=0.03 t_epoch=2010", true),
+    ("geodesic", true),
+    ("molodensky dx=-87 dy=-96 dz=-120 ellps_0=intl ellps_1=GRS80", true),
+    ("curvature mean", false),
+    ("gravity grs80", false),
+];
+
+/// The count `vstep ret=r` reports for n operands: r >= 0: min(r, n); r < 0: n - |r| (not below 0)
+fn user_count(ret: i64, n: usize) -> usize {
+    if ret >= 0 {
+        (ret as usize).min(n)
+    } else {
+        n.saturating_sub(ret.unsigned_abs() as usize)
+    }
+}
+
+// ---- the user defined step --------------------------------------------------------
+
+#[rustfmt::skip]
+const VSTEP_GAMUT: [OpParameter; 4] = [
+    OpParameter::Flag    { key: "inv" },
+    OpParameter::Natural { key: "mode", default: Some(0) },
+    OpParameter::Natural { key: "dim",  default: Some(1) },
+    OpParameter::Integer { key: "ret",  default: Some(0) },
+];
+
+fn vstep(op: &Op, operands: &mut dyn CoordinateSet, forward: bool) -> usize {
+    let n = operands.len();
+    let mode = op.params.natural("mode").unwrap_or(0);
+    let j = op.params.natural("dim").unwrap_or(1).clamp(1, 4) - 1;
+    let k = user_count(op.params.integer("ret").unwrap_or(0), n);
+    let s = if forward { 0.5 } else { -0.5 };
+    let f = if forward { 2.0 } else { 0.5 };
+    for i in 0..n {
+        let mut c = operands.get_coord(i);
+        match mode {
+            0 => continue,
+            1 => c[j] += s,
+            2 => {
+                if i < k {
+                    c[j] += s
+                } else {
+                    c = Coor4D::nan()
+                }
+            }
+            _ => c[j] *= f,
+        }
+        operands.set_coord(i, &c);
+    }
+    k
+}
+fn vstep_fwd(op: &Op, _ctx: &dyn Context, operands: &mut dyn CoordinateSet) -> usize {
+    vstep(op, operands, true)
+}
+fn vstep_inv(op: &Op, _ctx: &dyn Context, operands: &mut dyn CoordinateSet) -> usize {
+    vstep(op, operands, false)
+}
+fn vstep_new(parameters: &RawParameters, ctx: &dyn Context) -> Result<Op, Error> {
+    Op::plain(parameters, InnerOp(vstep_fwd), Some(InnerOp(vstep_inv)), &VSTEP_GAMUT, ctx)
 }
 
 fn list(v: &[u8]) -> String {
@@ -53,7 +146,25 @@ impl Ins {
             Ins::AddOne(true) => "addone inv".into(),
             Ins::Perm(p) => format!("axisswap order={},{},{},{}", p[0], p[1], p[2], p[3]),
             Ins::Noop => "noop".into(),
+            Ins::User { mode, dim, ret, inv } => format!("vstep mode={mode} dim={dim} ret={ret}{}", if *inv { " inv" } else { "" }),
+            Ins::Lib { idx, inv } => {
+                let (def, invertible) = LIB_STEPS[*idx as usize % LIB_STEPS.len()];
+                format!("{def}{}", if *inv && invertible { " inv" } else { "" })
+            }
         }
+    }
+    /// a stack instruction that, executed in the given direction, writes stack columns into the operands
+    fn writes_operands(&self, fwd: bool) -> bool {
+        match self {
+            Ins::Flip(_) => true,
+            Ins::Pop(_) | Ins::LPop(_) => fwd,
+            Ins::Push(_) | Ins::LPush(_) => !fwd,
+            _ => false,
+        }
+    }
+    /// a step that may report fewer successes than there are operands
+    fn may_fail(&self) -> bool {
+        matches!(self, Ins::User { .. } | Ins::Lib { .. })
     }
     /// The instruction which, executed in the inverse direction, acts as `self` does forward.
     fn mirrored(&self) -> Ins {
@@ -65,6 +176,10 @@ impl Ins {
             Ins::LPush(m) => Ins::LPop(*m),
             Ins::LPop(m) => Ins::LPush(*m),
             Ins::AddOne(i) => Ins::AddOne(!i),
+            Ins::User { mode, dim, ret, inv } => Ins::User { mode: *mode, dim: *dim, ret: *ret, inv: !inv },
+            // a one-way operator cannot be mirrored: the inverse direction then runs it in its
+            // unsupported direction (0 successes, data left alone), which is part of the domain
+            Ins::Lib { idx, inv } => Ins::Lib { idx: *idx, inv: !inv && LIB_STEPS[*idx as usize % LIB_STEPS.len()].1 },
             // axisswap inverse is the inverse permutation: keep the step, and let the
             // model apply the documented inverse mapping
             other => other.clone(),
@@ -88,7 +203,21 @@ struct ModelOut {
     underflow: bool,
     underflow_last: bool,
     unspecified: bool,
+    /// executed steps that reported 0 successes for a non-empty operand set / fewer than all
+    zero_steps: usize,
+    partial_steps: usize,
+    /// data moving stack instructions executed after a step that reported fewer / zero successes
+    moves_after_short: usize,
+    moves_after_zero: usize,
+    /// one-way operators executed in the direction they do not support
+    oneway_unsupported: usize,
+    /// the standalone evaluation of a library step failed (message); nothing is compared then
+    ext_error: Option<String>,
 }
+
+/// Standalone evaluation of an opaque (library) step on the machine's current operand state:
+/// (instruction, pipeline direction, operands) -> (operands, successes)
+type Ext<'a> = &'a mut dyn FnMut(&Ins, bool, &[[f64; 4]]) -> Result<(Vec<[f64; 4]>, usize), String>;
 
 /// Big swap on the m topmost elements: the n upper elements go below the m-n lower.
 fn model_roll(stack: &mut Vec<Vec<f64>>, m: i64, n: i64) -> bool {
@@ -121,8 +250,35 @@ fn model_unroll(stack: &mut Vec<Vec<f64>>, m: i64, n: i64) -> bool {
     true
 }
 
-fn model_exec(ins: &Ins, fwd: bool, stack: &mut Vec<Vec<f64>>, ops: &mut Vec<[f64; 4]>, out: &mut ModelOut) -> bool {
+fn model_exec(ins: &Ins, fwd: bool, stack: &mut Vec<Vec<f64>>, ops: &mut Vec<[f64; 4]>, out: &mut ModelOut, ext: Ext) -> bool {
     // returns false on underflow
+    let len = ops.len();
+    // the count a value-changing step reports; stack instructions report all operands
+    let mut reported = len;
+    let ok = model_exec_inner(ins, fwd, stack, ops, out, ext, &mut reported);
+    if !ok || out.ext_error.is_some() {
+        return ok;
+    }
+    if ins.may_fail() {
+        if reported < len {
+            out.partial_steps += 1;
+        }
+        if reported == 0 && len > 0 {
+            out.zero_steps += 1;
+        }
+        out.count = out.count.min(reported);
+    } else if ins.writes_operands(fwd) && len > 0 {
+        if out.partial_steps > 0 {
+            out.moves_after_short += 1;
+        }
+        if out.zero_steps > 0 {
+            out.moves_after_zero += 1;
+        }
+    }
+    true
+}
+
+fn model_exec_inner(ins: &Ins, fwd: bool, stack: &mut Vec<Vec<f64>>, ops: &mut Vec<[f64; 4]>, out: &mut ModelOut, ext: Ext, reported: &mut usize) -> bool {
     let len = ops.len();
     let push = |stack: &mut Vec<Vec<f64>>, ops: &Vec<[f64; 4]>, l: &[u8]| {
         for &i in l {
@@ -195,8 +351,46 @@ fn model_exec(ins: &Ins, fwd: bool, stack: &mut Vec<Vec<f64>>, ops: &mut Vec<[f6
             }
         }
         (Ins::Noop, _) => {}
+        (Ins::User { mode, dim, ret, inv }, d) => {
+            let forward = *inv != d;
+            let k = user_count(*ret as i64, len);
+            let j = (*dim as usize).clamp(1, 4) - 1;
+            let s = if forward { 0.5 } else { -0.5 };
+            let f = if forward { 2.0 } else { 0.5 };
+            for (i, c) in ops.iter_mut().enumerate() {
+                match mode {
+                    0 => {}
+                    1 => c[j] += s,
+                    2 => {
+                        if i < k {
+                            c[j] += s
+                        } else {
+                            *c = [f64::NAN; 4]
+                        }
+                    }
+                    _ => c[j] *= f,
+                }
+            }
+            *reported = k;
+        }
+        (Ins::Lib { idx, inv }, d) => {
+            let invertible = LIB_STEPS[*idx as usize % LIB_STEPS.len()].1;
+            if !invertible && !d {
+                out.oneway_unsupported += 1;
+            }
+            let _ = inv;
+            match ext(ins, d, ops) {
+                Ok((values, count)) => {
+                    *ops = values;
+                    *reported = count;
+                }
+                Err(msg) => {
+                    out.ext_error = Some(msg);
+                    return true;
+                }
+            }
+        }
     }
-    let _ = len;
     true
 }
 
@@ -221,19 +415,22 @@ fn project(kind: u8, c: [f64; 4]) -> [f64; 4] {
 }
 
 fn model(prog: &[Ins], fwd: bool, operands: &[[f64; 4]]) -> ModelOut {
-    model_in(prog, fwd, operands, 0)
+    model_in(prog, fwd, operands, 0, &mut |_, _, _| Err("no library available".to_string()))
 }
 
 /// The machine acting on an operand set held in a container of the given kind: every step
 /// reads tuples through the container and writes them back through it.
-fn model_in(prog: &[Ins], fwd: bool, operands: &[[f64; 4]], kind: u8) -> ModelOut {
+fn model_in(prog: &[Ins], fwd: bool, operands: &[[f64; 4]], kind: u8, ext: Ext) -> ModelOut {
     let mut out = ModelOut { count: operands.len(), ..Default::default() };
     let mut ops: Vec<[f64; 4]> = operands.iter().map(|c| project(kind, *c)).collect();
     let mut stack: Vec<Vec<f64>> = vec![]; // fresh per application
     let order: Vec<&Ins> = if fwd { prog.iter().collect() } else { prog.iter().rev().collect() };
     let n = order.len();
     for (k, ins) in order.into_iter().enumerate() {
-        let ok = model_exec(ins, fwd, &mut stack, &mut ops, &mut out);
+        let ok = model_exec(ins, fwd, &mut stack, &mut ops, &mut out, &mut *ext);
+        if out.ext_error.is_some() {
+            break;
+        }
         if !ok {
             out.underflow = true;
             out.underflow_last = k + 1 == n;
@@ -279,7 +476,7 @@ fn selftest_model() {
     let mut out = ModelOut::default();
     let mut stack = mk(&[1., 2., 3., 4.]);
     let mut ops = vec![[5., 6., 7., 8.]];
-    model_exec(&Ins::Flip(vec![1, 2]), true, &mut stack, &mut ops, &mut out);
+    model_exec(&Ins::Flip(vec![1, 2]), true, &mut stack, &mut ops, &mut out, &mut |_, _, _| Err(String::new()));
     assert!(flat(&stack) == [1., 2., 6., 5.] && ops[0] == [4., 3., 7., 8.], "flip model disagrees with doc");
     // push=1,2 | pop=1,2 swaps the first two elements
     let m = model(&[Ins::Push(vec![1, 2]), Ins::Pop(vec![1, 2])], true, &[[1., 2., 3., 4.]]);
@@ -305,6 +502,9 @@ struct Case {
     /// container kind (see `project`); absent in older replay files = Vec<Coor4D>
     #[serde(default)]
     kind: u8,
+    /// operand flavour (see `operands`); absent in older replay files = the arithmetic tuples
+    #[serde(default)]
+    opset: u8,
 }
 
 /// Apply through a container of the case's kind, read the result back through get_coord
@@ -323,26 +523,89 @@ fn apply_in(ctx: &Minimal, op: OpHandle, dir: Direction, kind: u8, ops: &[[f64; 
     }
 }
 
-fn operands(n: usize, offset: i32) -> Vec<[f64; 4]> {
+/// Operand flavours. 0: arithmetic tuples (all distinct small integers). 1..6: tuples chosen per
+/// index from a list of kinds, so that the library steps of LIB_STEPS succeed for all, some or
+/// none of them: 1 geographic in-domain, 2 geographic out-of-domain (far from every central
+/// meridian / at a pole / NaN latitude / infinite longitude), 3 mix of 1 and 2, 4 projected and
+/// geocentric metres in-domain, 5 far out metres and NaN, 6 everything mixed.
+const OPSETS: usize = 7;
+fn operands(n: usize, offset: i32, opset: u8) -> Vec<[f64; 4]> {
+    let flavours: &[u8] = match opset as usize % OPSETS {
+        0 => &[],
+        1 => &[0],
+        2 => &[1, 2, 3, 7],
+        3 => &[0, 1, 0, 2, 3, 0],
+        4 => &[4, 6],
+        5 => &[5, 3],
+        _ => &[0, 1, 2, 3, 4, 5, 6, 7],
+    };
     (0..n)
         .map(|i| {
             let b = (offset as f64) + 100.0 * i as f64;
-            [b + 11.0, b + 22.0, b + 33.0, b + 44.0]
+            if flavours.is_empty() {
+                return [b + 11.0, b + 22.0, b + 33.0, b + 44.0];
+            }
+            let o = offset.rem_euclid(100) as usize;
+            let fi = i as f64;
+            let h = 100.0 + fi;
+            let t = 2000.0 + ((i + o) % 20) as f64;
+            match flavours[(i + o) % flavours.len()] {
+                0 => [(2.0 + ((7 * i + o) % 16) as f64).to_radians(), (35.0 + ((11 * i + 3 * o) % 30) as f64).to_radians(), h, t],
+                1 => [(171.0 + (i % 8) as f64).to_radians(), (((5 * i + o) % 60) as f64 - 30.0).to_radians(), h, t],
+                2 => [(10.0 + fi).to_radians(), if (i + o) % 2 == 0 { std::f64::consts::FRAC_PI_2 } else { -std::f64::consts::FRAC_PI_2 }, h, t],
+                3 => [(9.0 + fi).to_radians(), f64::NAN, h, t],
+                4 => [500_000.0 + 1000.0 * fi + b, 6_100_000.0 - 500.0 * fi, h, t],
+                5 => [1.0e8 + b, 2.0e7 + fi, h, t],
+                6 => [3_586_525.0 + 10.0 * fi, 762_339.0 + b, 5_201_465.0 - fi, t],
+                _ => [f64::INFINITY, (40.0 + fi).to_radians(), h, t],
+            }
         })
         .collect()
 }
 
 fn check(case: &Case, rec: &mut Rec) -> CaseResult {
     let text = program_text(&case.prog);
-    let ops = operands(case.n_operands, case.offset);
-    let m = model_in(&case.prog, case.fwd, &ops, case.kind);
+    let ops = operands(case.n_operands, case.offset, case.opset);
     let kind = kind_name(case.kind);
     let mut ctx = Minimal::new();
+    ctx.register_op("vstep", OpConstructor(vstep_new));
     let op = match try_op(&mut ctx, &text) {
         Err(p) => vfail!(format!("panic-instantiate@{}", p.sig()), "instantiating '{text}' panics: {} at {}:{}", p.msg, p.file, p.line),
         Ok(Err(e)) => vfail!("well-formed-rejected", "well-formed stack program '{text}' rejected: {e:?}"),
         Ok(Ok(op)) => op,
     };
+    // the library steps of the program, each instantiated on its own: the reference machine
+    // applies them standalone (outside any pipeline) to its current operand state
+    let mut handles: std::collections::BTreeMap<String, OpHandle> = Default::default();
+    for ins in case.prog.iter().filter(|i| matches!(i, Ins::Lib { .. })) {
+        let t = ins.text();
+        if !handles.contains_key(&t) {
+            match try_op(&mut ctx, &t) {
+                Ok(Ok(h)) => {
+                    handles.insert(t, h);
+                }
+                Ok(Err(e)) => vfail!("lib-step-standalone-rejected", "step '{t}' of '{text}' is accepted in the pipeline but rejected on its own: {e:?}"),
+                Err(p) => vfail!(format!("panic-instantiate@{}", p.sig()), "instantiating '{t}' panics: {} at {}:{}", p.msg, p.file, p.line),
+            }
+        }
+    }
+    let m = {
+        let ctx = &ctx;
+        let kindv = case.kind;
+        let mut ext = |ins: &Ins, d: bool, cur: &[[f64; 4]]| -> Result<(Vec<[f64; 4]>, usize), String> {
+            let t = ins.text();
+            let h = handles.get(&t).ok_or_else(|| format!("no handle for '{t}'"))?;
+            match apply_in(ctx, *h, dir_of(d), kindv, cur) {
+                Err(p) => Err(format!("'{t}' ({:?}) applied on its own to {cur:?} panics: {} at {}:{}", dir_of(d), p.msg, p.file, p.line)),
+                Ok(Err(e)) => Err(format!("'{t}' ({:?}) applied on its own returns an error: {e:?}", dir_of(d))),
+                Ok(Ok((data, count))) => Ok((data.iter().map(|c| c.0).collect(), count)),
+            }
+        };
+        model_in(&case.prog, case.fwd, &ops, case.kind, &mut ext)
+    };
+    if let Some(msg) = &m.ext_error {
+        vfail!("lib-step-standalone-failed", "reference for '{text}' on a {kind} not available: {msg}");
+    }
     let dir = dir_of(case.fwd);
     let mut first: Option<(Vec<Coor4D>, usize)> = None;
     // apply the same handle three times to fresh copies: the stack must not leak
@@ -380,7 +643,7 @@ fn check(case: &Case, rec: &mut Rec) -> CaseResult {
                 }
             }
         } else {
-            vensure!(count == case.n_operands, "count", "'{text}' ({dir:?}) on {} tuples reports {count} successes", case.n_operands);
+            vensure!(count == m.count, "count", "'{text}' ({dir:?}) on {} tuples in a {kind} reports {count} successes; the minimum over the counts of the executed steps is {}", case.n_operands, m.count);
             for (i, c) in data.iter().enumerate() {
                 vensure!(c4_bits_eq(c, &Coor4D(m.values[i])), "machine-mismatch",
                     "'{text}' ({dir:?}) on a {kind}, tuple {i}: library {} vs documented machine {:?} (input {:?}, read through the container before and after every step)", fmt_c4(c), m.values[i], ops[i]);
@@ -392,7 +655,35 @@ fn check(case: &Case, rec: &mut Rec) -> CaseResult {
     }
     rec.class(if m.underflow { "underflow" } else if case.fwd { "ok-fwd" } else { "ok-inv" });
     rec.class(&format!("container:{kind}"));
-    if case.prog.iter().any(|i| i.moves_data()) && case.n_operands > 0 {
+    let has_failing = case.prog.iter().any(|i| i.may_fail());
+    if has_failing {
+        // the class of steps reporting fewer successes than operands
+        rec.class(if m.zero_steps > 0 { "short-step:zero" } else if m.partial_steps > 0 { "short-step:some" } else { "short-step:none(all succeed)" });
+        rec.class(&format!("operand-flavour:{}", case.opset as usize % OPSETS));
+        rec.count("steps_reporting_zero", m.zero_steps as u64);
+        rec.count("steps_reporting_fewer", m.partial_steps as u64);
+        rec.count("stack_writes_after_zero_step", m.moves_after_zero as u64);
+        rec.count("stack_writes_after_short_step", m.moves_after_short as u64);
+        rec.count("oneway_unsupported_direction", m.oneway_unsupported as u64);
+        if !m.underflow {
+            if m.moves_after_zero > 0 {
+                rec.class("values-compared-after-zero-step");
+            }
+            rec.class(if m.count == 0 { "count:0" } else if m.count < case.n_operands { "count:some" } else { "count:all" });
+        }
+        for i in case.prog.iter() {
+            match i {
+                Ins::User { mode, .. } => rec.class(&format!("step:vstep mode={mode}")),
+                Ins::Lib { idx, .. } => rec.class(&format!("step:{}", LIB_STEPS[*idx as usize % LIB_STEPS.len()].0.split(' ').next().unwrap())),
+                _ => {}
+            }
+        }
+        // non-trivial: a stack instruction wrote into the operands after a step had reported
+        // fewer successes than operands, and the values were compared
+        if m.moves_after_short > 0 && !m.underflow {
+            rec.nontrivial(&(text, case.fwd, case.kind, case.opset));
+        }
+    } else if case.prog.iter().any(|i| i.moves_data()) && case.n_operands > 0 {
         rec.nontrivial(&(text, case.fwd, case.kind));
     }
     Ok(())
@@ -469,9 +760,17 @@ struct RawIns {
 }
 
 fn raw_ins() -> impl Strategy<Value = RawIns> {
-    (0u8..14, any::<u16>(), any::<u16>(), prop::collection::vec(1u8..=4, 1..=4), prop::bool::weighted(0.04))
+    raw_ins_upto(14)
+}
+
+/// kinds 14..20 are the steps that may report fewer successes than operands
+fn raw_ins_upto(kinds: u8) -> impl Strategy<Value = RawIns> {
+    (0u8..kinds, any::<u16>(), any::<u16>(), prop::collection::vec(1u8..=4, 1..=4), prop::bool::weighted(0.04))
         .prop_map(|(kind, a, b, l, free)| RawIns { kind, a, b, l, free })
 }
+
+/// counts a `vstep` reports: 0, 1, 2, n-1, n-2, all
+const RETS: [i8; 6] = [0, 1, -1, 2, -2, 100];
 
 const PERMS: [[i8; 4]; 6] = [[2, 1, 3, 4], [1, 2, 4, 3], [4, 3, 2, 1], [-1, 2, 3, 4], [3, -1, 2, 4], [2, 3, 4, 1]];
 
@@ -548,6 +847,8 @@ fn interpret(raw: &[RawIns]) -> Vec<Ins> {
             }
             11 => Ins::AddOne(r.a % 2 == 0),
             12 => Ins::Perm(PERMS[pick(r.a, PERMS.len())]),
+            14..=16 => Ins::User { mode: pick(r.a, 4) as u8, dim: l[0], ret: RETS[pick(r.b, RETS.len())], inv: l.len() % 2 == 0 },
+            17..=19 => Ins::Lib { idx: pick(r.a, LIB_STEPS.len()) as u8, inv: r.b % 2 == 1 },
             _ => Ins::AddOne(false),
         };
         out.push(ins);
@@ -557,8 +858,63 @@ fn interpret(raw: &[RawIns]) -> Vec<Ins> {
 
 fn random_case(maxlen: usize) -> impl Strategy<Value = Case> {
     (prop::collection::vec(raw_ins(), 2..=maxlen), any::<bool>(), prop_oneof![4 => 0usize..6, 1 => 6usize..120], -50i32..50, 0u8..KINDS as u8).prop_map(
-        |(raw, fwd, n_operands, offset, kind)| Case { prog: arrange(&interpret(&raw), fwd), fwd, n_operands, offset, kind },
+        |(raw, fwd, n_operands, offset, kind)| Case { prog: arrange(&interpret(&raw), fwd), fwd, n_operands, offset, kind, opset: 0 },
     )
+}
+
+/// Random programs in which about a third of the steps may report fewer successes than operands
+fn random_failing_case(maxlen: usize) -> impl Strategy<Value = Case> {
+    (prop::collection::vec(raw_ins_upto(20), 3..=maxlen), any::<bool>(), prop_oneof![4 => 1usize..7, 1 => 7usize..60], -50i32..50, 0u8..KINDS as u8, 0u8..OPSETS as u8).prop_map(
+        |(raw, fwd, n_operands, offset, kind, opset)| Case { prog: arrange(&interpret(&raw), fwd), fwd, n_operands, offset, kind, opset },
+    )
+}
+
+// ---- stack programs around a step that reports fewer successes than operands ---------
+
+/// every `vstep` variant and every library step (both orientations where invertible)
+fn failing_steps() -> Vec<Ins> {
+    let mut v = vec![];
+    for mode in 0..4u8 {
+        for ret in [0i8, 1, -1, 100] {
+            for dim in [1u8, 3] {
+                for inv in [false, true] {
+                    v.push(Ins::User { mode, dim, ret, inv });
+                }
+            }
+        }
+    }
+    for (idx, (_, invertible)) in LIB_STEPS.iter().enumerate() {
+        v.push(Ins::Lib { idx: idx as u8, inv: false });
+        if *invertible {
+            v.push(Ins::Lib { idx: idx as u8, inv: true });
+        }
+    }
+    v
+}
+
+const SANDWICHES: usize = 12;
+/// Execution order; `s` is the step under test
+fn sandwich(k: usize, s: &Ins) -> Vec<Ins> {
+    let s = || s.clone();
+    match k % SANDWICHES {
+        // save, step, restore
+        0 => vec![Ins::Push(vec![1, 2, 3]), s(), Ins::Pop(vec![3, 2, 1])],
+        1 => vec![Ins::LPush(0b0111), s(), Ins::LPop(0b0111)],
+        2 => vec![Ins::Push(vec![1, 2, 3, 4]), s(), Ins::Flip(vec![3]), Ins::Pop(vec![4, 1])],
+        3 => vec![Ins::Push(vec![1, 2]), Ins::Push(vec![3, 4]), s(), Ins::Roll(4, 1), Ins::Pop(vec![1, 2, 3, 4])],
+        4 => vec![Ins::Push(vec![4, 3, 2, 1]), s(), Ins::Unroll(3, -1), Ins::Swap, Ins::Pop(vec![2, 2, 1])],
+        // the step twice, and a value-changing step that succeeds in between
+        5 => vec![Ins::Push(vec![1]), s(), Ins::Flip(vec![1]), Ins::AddOne(false), s(), Ins::Pop(vec![2])],
+        // the step first / last
+        6 => vec![s(), Ins::Push(vec![1, 2]), Ins::Pop(vec![1, 2])],
+        7 => vec![Ins::LPush(0b1111), Ins::Swap, Ins::LPop(0b1010), Ins::Pop(vec![1, 3]), s()],
+        // underflow in the last step / in mid-program, after the step
+        8 => vec![Ins::Push(vec![2, 1]), s(), Ins::Pop(vec![1, 2, 3])],
+        9 => vec![Ins::Push(vec![1, 2]), s(), Ins::Pop(vec![1, 2, 3]), Ins::Pop(vec![1, 2])],
+        // the restoring instruction is not the next one
+        10 => vec![Ins::LPush(0b1001), s(), Ins::Perm([2, 1, 4, 3]), Ins::Noop, Ins::Push(vec![2]), Ins::Unroll(3, 1), Ins::LPop(0b0110), Ins::Pop(vec![4])],
+        _ => vec![Ins::Push(vec![3, 3, 1]), Ins::AddOne(true), s(), Ins::Roll(3, -1), Ins::Flip(vec![2, 2]), Ins::Pop(vec![1, 4, 2])],
+    }
 }
 
 // ---- rejection of ill-formed sub-commands -----------------------------------------
@@ -614,6 +970,7 @@ fn main() {
     run.assume("flip with a repeated index is read sequentially (left to right), as are push and pop");
     run.assume("after a stack underflow only the count (0) is compared unless the underflow is the last executed step, where every tuple must carry NaN");
     run.assume("swap on fewer than two stack elements is unspecified: generated, executed (must not panic), result not compared");
+    run.assume("a step reporting fewer successes than operands (down to zero) does not change what the following instructions do; the pipeline reports the minimum count over the executed steps; library steps are opaque: the reference applies the same operator standalone to a container of the same kind holding its current operand state");
     run.assume("operand sets in containers storing fewer than four dimensions: every step reads a tuple as the container reports it (height 0, epoch NaN, f32 values, adapter constants) and what it writes is kept in the stored dimensions only (documented container semantics)");
 
     let instrs = all_instructions();
@@ -635,7 +992,7 @@ fn main() {
                 let kind = (r / 24) as u8;
                 let mut exec = prelude(pre);
                 exec.push(ins);
-                Case { prog: arrange(&exec, fwd), fwd, n_operands: nops, offset: 0, kind }
+                Case { prog: arrange(&exec, fwd), fwd, n_operands: nops, offset: 0, kind, opset: 0 }
             },
             check,
         );
@@ -657,7 +1014,7 @@ fn main() {
                     let mut exec = prelude(3);
                     exec.push(a);
                     exec.push(b);
-                    Case { prog: arrange(&exec, fwd), fwd, n_operands: 2, offset: 7, kind: (i % KINDS) as u8 }
+                    Case { prog: arrange(&exec, fwd), fwd, n_operands: 2, offset: 7, kind: (i % KINDS) as u8, opset: 0 }
                 },
                 check,
             );
@@ -676,7 +1033,7 @@ fn main() {
                     let mut exec = prelude(3);
                     exec.push(a);
                     exec.push(b);
-                    Case { prog: arrange(&exec, fwd), fwd, n_operands: 2, offset: 7, kind: (i % KINDS) as u8 }
+                    Case { prog: arrange(&exec, fwd), fwd, n_operands: 2, offset: 7, kind: (i % KINDS) as u8, opset: 0 }
                 },
                 check,
             );
@@ -691,6 +1048,42 @@ fn main() {
         "depth-aware random programs (4% of instructions unconstrained, so underflow occurs) interleaved with addone/axisswap, both directions, 0..120 operands, applied three times; non-trivial = contains pop/flip/roll/unroll/swap and has operands; distinct by program text and direction",
         n,
         move || random_case(maxlen),
+        check,
+    );
+
+    // 3b. stack programs around one step that reports fewer successes than operands
+    {
+        let steps = failing_steps();
+        let ns = steps.len();
+        const NOPS: [usize; 2] = [3, 1];
+        const SETS: [u8; 3] = [0, 3, 6];
+        run.enumerate(
+            "failing-step-sandwich",
+            "every step that may report fewer successes than operands (vstep: 4 data modes x counts 0/1/n-1/n x 2 dims x inv; 13 library operators incl. the one-way curvature/gravity, both orientations) x 12 stack programs around it (save/restore with stack push/pop, legacy push/pop, flip, roll, unroll, swap, step twice, step first/last, underflow last / mid-program) x both directions x 6 container kinds x operand sets of 3/1 tuples x 3 operand flavours (arithmetic, geographic in/out of domain mixed, everything mixed); every instruction is executed whatever the earlier counts; values bit for bit, count = minimum over the executed steps; non-trivial = a stack instruction wrote into the operands after a step reported fewer successes than operands",
+            ns * SANDWICHES * 2 * KINDS * NOPS.len() * SETS.len(),
+            move |i| {
+                let step = &steps[i % ns];
+                let r = i / ns;
+                let exec = sandwich(r % SANDWICHES, step);
+                let r = r / SANDWICHES;
+                let fwd = r % 2 == 0;
+                let kind = ((r / 2) % KINDS) as u8;
+                let r = r / (2 * KINDS);
+                let n_operands = NOPS[r % NOPS.len()];
+                let opset = SETS[(r / NOPS.len()) % SETS.len()];
+                Case { prog: arrange(&exec, fwd), fwd, n_operands, offset: 3, kind, opset }
+            },
+            check,
+        );
+    }
+
+    // 3c. random programs with such steps
+    let n = run.scale(12_000, 400_000);
+    run.section(
+        "random-programs-failing-steps",
+        "depth-aware random programs in which 30% of the steps may report fewer successes than operands (vstep with arbitrary count and data mode, library operators on operand sets partly or wholly outside their domain, one-way operators), interleaved with addone/axisswap, both directions, 1..60 operands of 7 flavours in 6 container kinds, applied three times; reference machine executes every instruction, library steps evaluated standalone on the machine's state; non-trivial = a stack instruction wrote into the operands after a step reported fewer successes than operands and the values were compared",
+        n,
+        move || random_failing_case(maxlen),
         check,
     );
 
